@@ -186,6 +186,9 @@ def _dep_db():
                             requires=[{'id': 'E1', 'version': '1'}, {'id': 'E2', 'version': '1'}])
     d2 = docs.lexicon_small(p, 'D2', tag='d2', ili='i2', requires=[{'id': 'E2', 'version': '1'}])
     d1['entries'][0]['lemma']['writtenForm'] = 'ax'
+    # the same query form leads to lemmas of two parts of speech
+    d2['entries'][0]['lemma']['writtenForm'] = 'axe'
+    d2['entries'][0]['lemma']['partOfSpeech'] = 'v'
     rt.quiet_add(docs.resource([base1, base2, d1, d2], '1.1'))
 
 
@@ -196,10 +199,12 @@ def _wordnet_transcript():
         w = wn.Wordnet('D1 D2')
     out = [[lx.id for lx in w.lexicons()], [lx.id for lx in w.expanded_lexicons()]]
     m = MO.Morphy()
-    w2 = wn.Wordnet('E1 E2 D1', expand='', lemmatizer=m)
+    w2 = wn.Wordnet('E1 E2 D1 D2', expand='', lemmatizer=m)
     out.append([x.id for x in w2.words('axes')])
+    out.append([x.id for x in w2.senses('axes')])
     out.append([x.id for x in w2.synsets('axes')])
     out.append(sorted(x for x in m('axes', 'n')['n']))
+    out.append([[p, sorted(fs)] for p, fs in m('axes').items()])
     ss = w.synset('d1ss1')
     out.append([[r.name, t.id, t._ili] for r, t in ss.relation_map().items()])
     out.append([t.id for t in ss.get_related()])
